@@ -714,6 +714,7 @@ static int vnadata_save_common(vnadata_t *vdp, FILE *fp, const char *filename,
     vnadata_parameter_type_t type;
     int rows, ports, frequencies;
     bool promote_ts2 = false;
+    bool ts1_normalize = false;
     int aprecision;
     int rc = -1;
     const double *frequency_vector;
@@ -1042,66 +1043,12 @@ static int vnadata_save_common(vnadata_t *vdp, FILE *fp, const char *filename,
     }
 
     /*
-     * If touchstone 1, normalize all system impedances to 1.
+     * Touchstone 1 stores Z, Y, H and G parameters normalized to the
+     * reference impedance given in the option line.  The values are
+     * scaled as they are printed below, mirroring what the loader does.
      */
-    if (vdip->vdi_filetype == VNADATA_FILETYPE_TOUCHSTONE1 &&
-	    z0_vector[0] != 1.0) {
-	vnadata_t *vdp_copy;
-	vnadata_parameter_type_t target_type;
-
-	/*
-	 * If the input type is S or T, make a writeable copy.	Otherwise,
-	 * convert to S using the existing z0.
-	 */
-	if ((vdp_copy = vnadata_alloc(vdip->vdi_error_fn,
-			vdip->vdi_error_arg)) == NULL) {
-	    goto out;
-	}
-	switch (vnadata_get_type(vdp)) {
-	case VPT_S:
-	default:
-	    target_type = VPT_S;
-	    break;
-
-	case VPT_T:
-	    target_type = VPT_T;
-	    break;
-
-	case VPT_U:
-	    target_type = VPT_U;
-	    break;
-	}
-	if (vnadata_convert(vdp, vdp_copy, target_type) == -1) {
-	    vnadata_free(vdp_copy);
-	    goto out;
-	}
-
-	/*
-	 * Set all z0's to 1.
-	 */
-	if (vnadata_set_all_z0(vdp_copy, 1.0) == -1) {
-	    _vnadata_error(vdip, VNAERR_SYSTEM,
-		    "vnadata_set_all_z0: %s", strerror(errno));
-	    vnadata_free(vdp_copy);
-	    goto out;
-	}
-
-	/*
-	 * Save the copy in the conversions array so that it gets freed
-	 * at out.  Replace vdp and z0_vector.	Even if we need the
-	 * original type, we have to convert it from out new matrix in
-	 * order to normalize impedances.
-	 */
-	conversions[target_type] = vdp_copy;
-	vdp = vdp_copy;
-	type = vdp->vd_type;
-	vdip = VDP_TO_VDIP(vdp);
-	if (!(vdip->vdi_flags & VF_PER_F_Z0)) {
-	    z0_vector = vdip->vdi_z0_vector;
-	} else {
-	    assert(z0_vector == NULL);
-	}
-    }
+    ts1_normalize = (vdip->vdi_filetype == VNADATA_FILETYPE_TOUCHSTONE1 &&
+	    z0_touchstone != 1.0);
 
     /*
      * Perform all the needed conversions.
@@ -1329,6 +1276,36 @@ static int vnadata_save_common(vnadata_t *vdp, FILE *fp, const char *filename,
 			} else {
 			    value = vnadata_get_cell(matrix, findex,
 				    row, column);
+			}
+			if (ts1_normalize) {
+			    switch (vfdp->vfd_parameter) {
+			    case VPT_Z:
+				value /= z0_touchstone;
+				break;
+
+			    case VPT_Y:
+				value *= z0_touchstone;
+				break;
+
+			    case VPT_H:	/* h11 in ohms, h22 in siemens */
+				if (row == 0 && column == 0) {
+				    value /= z0_touchstone;
+				} else if (row == 1 && column == 1) {
+				    value *= z0_touchstone;
+				}
+				break;
+
+			    case VPT_G:	/* g11 in siemens, g22 in ohms */
+				if (row == 0 && column == 0) {
+				    value *= z0_touchstone;
+				} else if (row == 1 && column == 1) {
+				    value /= z0_touchstone;
+				}
+				break;
+
+			    default:
+				break;
+			    }
 			}
 			switch (vfdp->vfd_format) {
 			case VNADATA_FORMAT_DB_ANGLE:
